@@ -191,7 +191,10 @@ ldb_remove_file(const char *path) {
   if (vp9_in_dir(path) == VP9_DB) {
     VP_ASSERT(g_listed_main == 1 && !g_freed_main, "names are used while the listing is alive");
     for (i = 0; i < VP_N; i++) {
-      if (i < dir_n && vp9_same_base(path, dir_name[i])) {
+      /* listed names differ in their slot tag by construction: the tag picks
+         the slot, the whole name must then be that slot's */
+      if (i < dir_n && vp9_tag(path) == i) {
+        VP_ASSERT(vp9_same_base(path, dir_name[i]), "C20.c the name removed is a listed name, unchanged");
         g_rm_main[i]++;
         hit = 1;
       }
@@ -202,7 +205,8 @@ ldb_remove_file(const char *path) {
     if (!g_t_first_sub)
       g_t_first_sub = g_clock;
     for (i = 0; i < VP_SUB; i++) {
-      if (i < sub_n && vp9_same_base(path, sub_name[i])) {
+      if (i < sub_n && vp9_tag(path) == i) {
+        VP_ASSERT(vp9_same_base(path, sub_name[i]), "C20.c the name removed from lost/ is a listed name, unchanged");
         g_rm_sub[i]++;
         hit = 1;
       }
